@@ -9,7 +9,7 @@ OBLIGATIONS = ['Props/C05.v', 'Props/Tie/charge_tie.v', 'Props/Tie/recode_tie.v'
 RULE = ('inputs: +/-/0 patterns of length 5..n (quick: 320 sampled from n<=7; thorough: all, n<=8) with random spellings + random class '
         'sequences (N <= 40); each with 5 transforms: class-preserving respelling, Omega-class respelling, reversal, '
         'charge inversion, reversal+inversion; observables kappa, delta, delta-max, SCD, Omega on x and T(x); '
-        'non-trivial = distinct (x, transform) with T(x) != x and a charged residue')
+        'non-trivial = distinct x with some T(x) != x and a charged residue (each x carries its 5 transform pairs)')
 TRUSTED = ['tolerance 1e-9; kappa comparison skipped when the exact ratio is within 1e-9 of the clamp boundaries']
 ASSUMPTIONS = ['float accuracy sampled']
 LEVEL_TEXT = ('Proof: delta, delta-max (unbounded dmax_swap via a delta-preserving bijection of the candidate families), kappa, SCD '
@@ -59,33 +59,40 @@ def build(ctx):
     cases = []
     ctx.direct_failures = []
     tup = lambda v: '(%s)' % ', '.join(cq(x) for x in v)
+    byx = {}
     for s, name, allp, t in jobs:
-        a, b = vals[s], vals[t]
-        d = {'x': s, 'transform': name, 'Tx': t, 'kappa_delta_dmax_scd_omega(x)': list(a), 'same(Tx)': list(b)}
-        if a[0] != 'ok' or b[0] != 'ok':
+        byx.setdefault(s, []).append((name, allp, t))
+    for s, ts in byx.items():
+        a = vals[s]
+        d = {'x': s, 'kappa_delta_dmax_scd_omega(x)': list(a),
+             'transforms': [{'transform': n, 'Tx': t, 'same(Tx)': list(vals[t])} for n, _, t in ts]}
+        if a[0] != 'ok' or any(vals[t][0] != 'ok' for _, _, t in ts):
             ctx.direct_failures.append(d)
             continue
-        cases.append(Case('(%s, %s, %s, %s, %s, %s)' % (cstr(s), cstr(t), cbool(allp[0]), cbool(allp[1]), tup(a[1]), tup(b[1])), d,
-                          key=(s, name, t), nontrivial=(s != t and any(c in 'KRDE' for c in s))))
-    return [CaseSet('C05', IMPORTS, 'string * string * bool * bool * (Q * Q * Q * Q * Q) * (Q * Q * Q * Q * Q)', 'check_c05',
-                    cases, shard=150)]
+        tl = clist('(%s, %s, %s, %s)' % (cstr(t), cbool(f[0]), cbool(f[1]), tup(vals[t][1])) for _, f, t in ts)
+        cases.append(Case('(%s, %s, %s)' % (cstr(s), tup(a[1]), tl), d, key=s,
+                          nontrivial=(any(t != s for _, _, t in ts) and any(c in 'KRDE' for c in s))))
+    ctx.notes['metamorphic_pairs'] = len(jobs)
+    return [CaseSet('C05', IMPORTS, 'string * vals5 * list (string * bool * bool * vals5)', 'check_c05', cases, shard=40)]
 
 
 def search(ctx, broken, cases):
     """the relation itself, on implementation outputs only"""
     names = ['kappa', 'delta', 'deltaMax', 'SCD', 'Omega']
     for c in cases:
-        a, b = c.descr['kappa_delta_dmax_scd_omega(x)'][1], c.descr['same(Tx)'][1]
-        idx = {'omega-respell': [4], 'respell': [0, 1, 2, 3]}.get(c.descr['transform'], range(5))
-        for i in idx:
-            if abs(a[i] - b[i]) > 1e-9 * max(1, abs(a[i])):
-                if i in (0, 4) and ({round(a[i], 9), round(b[i], 9)} & {1.0}):
-                    continue
-                return {'kind': 'not-invariant', 'parameter': names[i], 'x': c.descr['x'], 'transform': c.descr['transform'],
-                        'Tx': c.descr['Tx'], 'values': [a[i], b[i]]}
+        a = c.descr['kappa_delta_dmax_scd_omega(x)'][1]
+        for t in c.descr['transforms']:
+            b = t['same(Tx)'][1]
+            idx = {'omega-respell': [4], 'respell': [0, 1, 2, 3]}.get(t['transform'], range(5))
+            for i in idx:
+                if abs(a[i] - b[i]) > 1e-9 * max(1, abs(a[i])):
+                    if i in (0, 4) and ({round(a[i], 9), round(b[i], 9)} & {1.0}):
+                        continue
+                    return {'kind': 'not-invariant', 'parameter': names[i], 'x': c.descr['x'], 'transform': t['transform'],
+                            'Tx': t['Tx'], 'values': [a[i], b[i]]}
     return None
 
 
 def replay(ctx, obj):
     c = obj.get('case', obj)
-    return {'x': c['x'], 'Tx': c['Tx'], 'now': [_five(c['x']), _five(c['Tx'])], 'stored': c}
+    return {'x': c['x'], 'now': [_five(c['x'])] + [[t['transform'], t['Tx'], _five(t['Tx'])] for t in c.get('transforms', [])], 'stored': c}
